@@ -1021,7 +1021,12 @@ impl PhysicalPlanner {
         // Try morsel execution for Parquet-based aggregations
         // Skip morsel path for DISTINCT aggregates (not yet supported)
         let has_distinct = aggregates.iter().any(|a| a.distinct);
-        if self.use_morsel_execution() && !has_distinct {
+        // ... and for functions the morsel accumulators do not implement (they
+        // would silently be computed as COUNT).
+        let morsel_implements_all = aggregates
+            .iter()
+            .all(|a| crate::physical::morsel_agg::supports_function(&a.func));
+        if self.use_morsel_execution() && !has_distinct && morsel_implements_all {
             if let Some((files, input_schema, filter, projection)) =
                 self.try_extract_parquet_source(&node.input)
             {
